@@ -707,6 +707,36 @@ int 1000
 assert
 """ + "".join("arg 0\nbtoi\nint %d\n==\nbnz case_%d\n" % (k, k) for k in range(6)) + "err\n" + "".join(
     "case_%d:\nint 0\ngtxns RekeyTo\nglobal ZeroAddress\n==\nassert\nint 1\nreturn\n" % k for k in range(6)))
+for _n, _url in (("h021", "https://example.org/metadata/a.json"), ("h022", "https://example.org/metadata/b.json")):
+    HAND[_n] = ("string literals that contain the comment marker // (URLs) and a ; — lexical edge cases; h021/h022 differ only after the //", """
+#pragma version 6
+txn ApplicationID
+bz create
+txn OnCompletion
+int NoOp
+==
+assert
+byte "%s" // asset url
+log
+byte "a;b//c"
+len
+pop
+txn RekeyTo
+global ZeroAddress
+==
+assert
+int 1
+return
+create:
+byte "%s"
+log
+txn Sender
+global CreatorAddress
+==
+assert
+int 1
+return
+""" % (_url, _url))
 
 
 def deep_chain(n):
@@ -904,8 +934,11 @@ def main():
         text = text.strip() + "\n"
         with open(os.path.join(OUT, "teal", hid + ".teal"), "w") as f:
             f.write(text)
-        index.append({"id": hid, "file": "teal/%s.teal" % hid, "origin": "handwritten: " + desc,
-                      "sha256": hashlib.sha256(text.encode()).hexdigest(), "lines": text.count("\n")})
+        entry = {"id": hid, "file": "teal/%s.teal" % hid, "origin": "handwritten: " + desc,
+                 "sha256": hashlib.sha256(text.encode()).hexdigest(), "lines": text.count("\n")}
+        if hid == "h022":
+            entry["twin_of"] = "h021"
+        index.append(entry)
     rng = random.Random(20260923)
     for n in range(64):
         text = program(rng)
